@@ -32,7 +32,8 @@ class PROP(Prop):
     profiles = ["debug"]
     shard_min = 8
     rule = ("a call future dropped at EVERY poll index it reaches (pending points in the write, flush and read phases), for write granularities "
-            "{1,3,all} x pending patterns, with and without a late reply to the abandoned request, followed by one or two normal exchanges; TCP and "
+            "{1,3,all} x pending patterns, with and without a late reply to the abandoned request, followed by one or two normal exchanges; a call dropped in the receive phase after EVERY proper prefix of its reply "
+            "(short reply, reply announcing a 250-byte frame) has already been read; TCP and "
             "RTU; the synchronous client with a timeout against silent / slow / prompt scripted peers is explored by ./check C17's harness ops "
             "(SYNC) and compared here on results.  Oracle: the bytes accepted by the transport over the client's lifetime are a prefix-closed "
             "concatenation of whole request frames (all whole once a later call completes); the call after an abandoned one returns its own "
@@ -78,6 +79,28 @@ class PROP(Prop):
                                         evs.append("d" + good.hex())
                                         ops.append(cligen.call_op(reqj, R=",".join(evs)))
                                     cs.append(Case(cligen.cli_line(proto, slave, ops), {"proto": proto, "drop": drop, "npend": npend, "late": late, "exp": exp, "slave": slave}))
+        # abandoned in the RECEIVE phase after a fragment of the reply has already been read: the fragment must not be taken for
+        # (the start of) the next call's reply -- every fragment length of a short reply and of a reply announcing a long frame
+        for proto in ("tcp", "rtu"):
+            for rsp0 in (("RHR", [0xAAAA]), ("RHR", [0x1111] * 125), ("RC", [True] * 9)):
+                slave = rng.randrange(1, 248)
+                req0 = ("RHR", rng.randrange(65536), len(rsp0[1])) if rsp0[0] == "RHR" else ("RC", 5, len(rsp0[1]))
+                reply0 = cligen.frame(proto, 0, slave, mb.spec_rsp_pdu(rsp0))
+                ks = range(1, len(reply0)) if len(reply0) < 20 else sorted(set([1, 2, 3, 4, 6, 7, 8, 9, 10, 21, 22, 40, len(reply0) - 1] + ([rng.randrange(1, len(reply0)) for _ in range(20)] if tier == "thorough" else [])))
+                for k in ks:
+                    for split in (False, True):
+                        frag = reply0[:k]
+                        R0 = ("d" + frag.hex() + ",p") if not split or k < 2 else ("d%s,p,d%s,p" % (frag[:k // 2].hex(), frag[k // 2:].hex()))
+                        drop = R0.count("p") - 1
+                        ops = [cligen.call_op(req0, R=R0, drop=str(drop))]
+                        exp = [None]
+                        for j in (1, 2):
+                            reqj = ("RHR", rng.randrange(65536), 1)
+                            val = rng.randrange(65536)
+                            good = cligen.frame(proto, j, slave, mb.spec_rsp_pdu(("RHR", [val])))
+                            exp.append("OK:RHR:%d" % val)
+                            ops.append(cligen.call_op(reqj, R="d" + good.hex()))
+                        cs.append(Case(cligen.cli_line(proto, slave, ops), {"proto": proto, "drop": drop, "npend": drop, "late": False, "exp": exp, "slave": slave, "frag": k}))
         sync_cases = []
         # synchronous client with a timeout against prompt / slow / silent peers (real loopback TCP, real pty)
         for proto in ("tcp", "rtu"):
